@@ -11,7 +11,9 @@ RULE = ("(A) every ordered pair of the 97 elements of the radius table as a two-
         "corner of an orthorhombic or triclinic cell (the number of faces crossed is measured after wrapping); "
         "(B) random structures of 2-14 atoms in no cell / orthorhombic / triclinic cells with widths above the largest "
         "cutoff. Oracle: brute force over 125 images with the harness's own statement of the rule (radii and non-metal "
-        "list read from the module as given data); pairs i<j, each once; shift+wrap and permutation relations. "
+        "list read from the module as given data); pairs i<j, each once; shift+wrap and permutation relations; the same "
+        "object detected again, again after being moved in place, and again after one of its cell vectors was lengthened in "
+        "place (judged against the rule applied to the object's state at that time). "
         "Non-trivial: the expected answer contains a bond that exists only through a periodic image, or a pair within "
         "2e-3 of its cutoff; distinct by case parameters.")
 ASSUMPTIONS = ["COVALENT_RADII and NON_METALS are the property's given data", "pairs exactly at the cutoff are never generated; a structure with a pair within 1e-9 of its cutoff is discarded as gray"]
@@ -135,6 +137,22 @@ def check(elements, pos, cell, ctx, st, radii, nonmetals, what, metamorphic_rng=
         g_moved = set(tuple(sorted(int(v) for v in r)) for r in np.asarray(detect(a)).reshape(-1, 2))
         if g_again != gs or g_moved != gs:
             ctx.fail("%s: bonding of one and the same object changes between calls (repeat: %s, after moving it in place: %s)" % (what, sorted(g_again ^ gs)[:3], sorted(g_moved ^ gs)[:3]), witness=w)
+        # ... and after the object's cell was edited where it is (one cell vector lengthened: bonds through that face go)
+        if isinstance(a.cell, np.ndarray):
+            k = int(rng.integers(3))
+            a.cell[k, k] += 7
+            cell_now = np.array(a.cell, float)
+            pos_now = np.asarray(a.positions, float)
+            if np.all(G.frac(cell_now, pos_now) > -1e-9) and np.all(G.frac(cell_now, pos_now) < 1 + 1e-9):
+                exp2, _, margin2 = ref_bonds(elements, pos_now, cell_now, radii, nonmetals)
+                if margin2 > 1e-6:
+                    g_cell = set(tuple(sorted(int(v) for v in r)) for r in np.asarray(detect(a)).reshape(-1, 2))
+                    st.count("detections_after_inplace_cell_edit")
+                    if exp2 != gs:
+                        st.count("detections_after_inplace_cell_edit_with_other_bonding")
+                    if g_cell != exp2:
+                        ctx.fail("%s: after lengthening cell vector %d of the same object in place, detected %s, rule gives %s (spurious %s, missing %s)" %
+                                 (what, k, sorted(g_cell)[:6], sorted(exp2)[:6], sorted(g_cell - exp2)[:4], sorted(exp2 - g_cell)[:4]), witness=dict(w, cell_now=cell_now.tolist()))
     if metamorphic_rng is not None:
         perm = metamorphic_rng.permutation(len(elements))
         g3 = set(tuple(sorted(int(perm[v]) for v in r)) for r in np.asarray(detect(make_atoms([elements[i] for i in perm], pos[perm], cell))).reshape(-1, 2))
@@ -232,6 +250,8 @@ def requirements(stats, tier):
         need.append("only %d (side x faces crossed x cell) classes of the 16 observed" % stats.nseen("pair_class"))
     if stats.get("expected_bonds_via_image_only") < 50:
         need.append("too few image-only bonds in random structures")
+    if stats.get("detections_after_inplace_cell_edit_with_other_bonding") < (10 if tier == "quick" else 1000):
+        need.append("detections on an object whose cell was edited in place, with another expected bonding than before: %d" % stats.get("detections_after_inplace_cell_edit_with_other_bonding"))
     if stats.get("integer_cells") < 10:
         need.append("cells given with integer entries: %d" % stats.get("integer_cells"))
     if stats.nseen("random_cell_class") < 3:
